@@ -18,6 +18,7 @@ var registry = map[string]propCheck{}
 func register(id string, f propCheck) { registry[id] = f }
 
 var onlyRule string
+var verifDir string
 
 func main() {
 	prop := flag.String("property", "", "property id (C01..C20) or 'all'")
@@ -46,6 +47,7 @@ func main() {
 		}
 		*prop, onlyRule = p, r
 	}
+	verifDir = *verif
 	t0 := time.Now()
 	w, err := loadWorld(*repo, *tier, "")
 	if err != nil {
@@ -196,7 +198,9 @@ func init() {
 			e := w.Effects()
 			s := e.summary(fn)
 			fmt.Println("W:", s.W.list())
+			e.settle()
 			fmt.Println("R:", s.R.list())
+			fmt.Println("Rc:", s.Rc.list())
 			for k, v := range s.S {
 				fmt.Println("S", k, v.list())
 			}
